@@ -1,6 +1,7 @@
 import RbModel.Sexp
 import RbModel.Core
 import RbModel.CoreVm
+import RbModel.CoreWf
 /-! Line-protocol handlers for the code-generator model (requests `core.*`). -/
 namespace RbModel.Drv.Core
 open RbModel RbModel.Ast RbModel.Src RbModel.Core
@@ -54,6 +55,10 @@ def handle (cmd : String) (args : List Sexp) : Option String :=
       | .error c p σ => pure s!"((error {c} {p.row} {p.col}) {outS σ} ())"
       | .stuck => pure "(stuck () ())"
       | .outOfFuel => pure "(outOfFuel () ())"
+  | "core.wf", [prog] => do
+      -- the premise of C01_core_correct, decided by the verified checker (Thm/C01Wf.lean: wfTopB_sound)
+      let prog ← sprogram? prog
+      pure (if CoreWf.wfTopB prog.slots prog.body then "(wf true)" else "(wf false)")
   | _, _ => none
 
 end RbModel.Drv.Core
